@@ -1,6 +1,6 @@
 (* Properties_C12.v — C12: every integer and float bit pattern is decoded and encoded
    exactly.  Nothing but the statements; proofs are in Proofs_Bytes.v. *)
-From EZ Require Import Base Bytes Proofs_Bytes.
+From EZ Require Import Base Bytes Proofs_Bytes Proofs_Bytes4.
 Local Open Scope Z_scope.
 
 (* reading what the writer emitted gives the number back: 8-bit, 16-bit signed, 16-bit counts *)
@@ -36,6 +36,17 @@ Proof. exact le_hex2uint_2. Qed.
 Print Assumptions C12_word_reencode.
 
 (* a float is the number its four bytes spell, in both directions, for all 2^32 patterns *)
+(* the 32-bit integer of the header (scale word): every value of the int range, by arithmetic (no sweep possible):
+   the bitwise-or of byte-aligned parts is their sum *)
+Theorem C12_int32_decode : forall v, -2147483648 <= v < 2147483648 -> hex2int (le_bytes 4 v) = v.
+Proof. exact hex2int_le4. Qed.
+Print Assumptions C12_int32_decode.
+
+Theorem C12_uint32_assembly : forall b0 b1 b2 b3 : N, (b0 < 256)%N -> (b1 < 256)%N -> (b2 < 256)%N -> (b3 < 256)%N ->
+  hex2uint [b0; b1; b2; b3] = Z.of_N b0 + 256 * Z.of_N b1 + 65536 * Z.of_N b2 + 16777216 * Z.of_N b3.
+Proof. exact hex2uint_4. Qed.
+Print Assumptions C12_uint32_assembly.
+
 Theorem C12_float_pattern : forall v : N, (v < 4294967296)%N -> f32_of_bytes (le_bytesN 4 v) = v.
 Proof. exact f32_roundtrip. Qed.
 Print Assumptions C12_float_pattern.
